@@ -5,6 +5,7 @@ package main
 // (checked directly: elliptic-curve arithmetic is not modelled).
 
 import (
+	"time"
 	"bytes"
 	"crypto/ecdsa"
 	"crypto/elliptic"
@@ -123,8 +124,20 @@ func c18xRunInner(co *caseOut, kind string, in c18xInput) {
 		}
 		co.add(kind, tag, true, in, u.StringBE(), fmt.Sprintf("CAddrDec %d %s %s", in.Prefix, coqStrZ(*in.S), coqOptBytes(u.BytesBE(), err == nil)))
 	case "fixed_tostr":
+		if c18xFixedStuck {
+			return
+		}
 		z, _ := new(big.Int).SetString(in.Z, 10)
-		s := fixedn.ToString(new(big.Int).Set(z), in.Prec)
+		var s string
+		if !c18xWithin(3*time.Second, func() { s = fixedn.ToString(new(big.Int).Set(z), in.Prec) }) {
+			c18xFixedStuck = true
+			co.violation(kind, "fixedn.ToString does not return within 3 s (further fixed-point cases of this run are skipped)", in, nil)
+			return
+		}
+		if len(s) > 400 {
+			co.violation(kind, "fixedn.ToString returns an absurdly long string for a value below 2^129", in, len(s))
+			return
+		}
 		tag := "int"
 		if strings.Contains(s, ".") {
 			tag = "frac"
@@ -134,7 +147,20 @@ func c18xRunInner(co *caseOut, kind string, in c18xInput) {
 		}
 		co.add(kind, tag, tag != "int", in, s, fmt.Sprintf("CFixedToStr %s %d %s", coqZ(z), in.Prec, coqStrZ(s)))
 	case "fixed_fromstr":
-		z, err := fixedn.FromString(*in.S, in.Prec)
+		if c18xFixedStuck {
+			return
+		}
+		var z *big.Int
+		var err error
+		if !c18xWithin(3*time.Second, func() { z, err = fixedn.FromString(*in.S, in.Prec) }) {
+			c18xFixedStuck = true
+			co.violation(kind, "fixedn.FromString does not return within 3 s (further fixed-point cases of this run are skipped)", in, nil)
+			return
+		}
+		if err == nil && z.BitLen() > 4096 {
+			co.violation(kind, "fixedn.FromString returns an absurdly large integer for a short decimal string", in, z.BitLen())
+			return
+		}
 		impl, tag := "None", "err"
 		if err == nil {
 			impl, tag = "(Some "+coqZ(z)+")", "ok"
@@ -652,7 +678,12 @@ func c18xGenerate(co *caseOut, r *rng, cf *commonFlags) {
 				continue
 			}
 			c18xRun(co, "fixed_tostr", c18xInput{Z: fmt.Sprint(v), Prec: prec})
-			c18xRun(co, "fixed_fromstr", c18xInput{S: sp(fixedn.ToString(big.NewInt(v), prec)), Prec: prec})
+			if !c18xFixedStuck {
+				var str string
+				if c18xWithin(3*time.Second, func() { str = fixedn.ToString(big.NewInt(v), prec) }) && len(str) < 400 {
+					c18xRun(co, "fixed_fromstr", c18xInput{S: sp(str), Prec: prec})
+				}
+			}
 		}
 	}
 	// (precision stays <= 18: fixedn.ToString takes the fraction through Uint64, see notes/C18.md)
@@ -922,4 +953,20 @@ func c18KeyCurve(co *caseOut, in c18xInput) {
 	}
 	co.hist[fmt.Sprintf("keycurve/both-curves-%d", both)]++
 	co.add("keycurve", fmt.Sprintf("both%d", min(both, 2)), both > 0, in, nil, "CBigEnc 0 []") // direct laws; the term is a placeholder that always agrees
+}
+
+// c18xFixedStuck is set when a fixed-point conversion did not return in time: the remaining fixed-point cases are skipped
+// (a runaway computation must end in a reported violation, not in a check that never finishes).
+var c18xFixedStuck bool
+
+// c18xWithin runs f and reports whether it finished within d (the goroutine is abandoned otherwise).
+func c18xWithin(d time.Duration, f func()) bool {
+	done := make(chan struct{})
+	go func() { defer func() { recover(); close(done) }(); f() }()
+	select {
+	case <-done:
+		return true
+	case <-time.After(d):
+		return false
+	}
 }
